@@ -95,7 +95,8 @@ impl BE {
             BE::ZkpokFromBytes => api::decode_reencode(s, Art::Zkpok, b).map(|_| ()),
             BE::CommitmentFromBytes => api::decode_reencode(s, Art::Commitment, b).map(|_| ()),
             BE::BlindSign => api::blind_sign(s, &h.sk, &h.pk, &Some(b.to_vec()), &h.header, &some(&h.msgs)).map(|_| ()),
-            BE::ValidateCommit => { api::validate_commit(s, &Some(b.to_vec()), 8); Ok(()) }
+            // (with 8 blind generators, or exactly / just above / below what the frame's length asks for: picked by the content)
+            BE::ValidateCommit => { let m = b.len().saturating_sub(112) / 32; let sel = (b.iter().map(|x| *x as usize).sum::<usize>() + b.len()) % 6; let n = [8usize, m, m + 1, m + 2, 0, m.saturating_sub(1)][sel]; api::validate_commit(s, &Some(b.to_vec()), n); Ok(()) }
             BE::ProofGenSig => api::proof_gen(s, &h.pk, b, &h.header, &h.ph, &some(&h.msgs), &Some(h.didx.clone())).map(|_| ()),
             BE::BlindProofGenSig => api::blind_proof_gen(s, &h.pk, b, &h.header, &h.ph, &some(&h.msgs), &some(&h.committed), &Some(h.didx.clone()), &Some(h.dcidx.clone()), &Some(h.blind.clone())).map(|_| ()),
             BE::ProofVerify => { api::proof_verify(s, &h.pk, b, &h.header, &h.ph, &Some(dm), &Some(h.didx.clone())); Ok(()) }
@@ -340,6 +341,15 @@ fn int_part(cx: &mut Cx, victim: NodeId, h: Arc<Honest>, which: usize) {
         4 => for c in int_corruptions(0, l).into_iter().chain([l + 1, l + 2]) {
             let h2 = h.clone();
             add(cx, "update_signature", format!("update_index={c}"), 0, Box::new(move || api::update(s, &h2.sk, &h2.sig, &h2.msgs[0], b"new", c, h2.msgs.len()).is_ok()));
+            // ... an old signature whose e is -SK (the issuer knows SK; SK + e = 0 has no inverse)
+            if c == 0 {
+                let h2 = h.clone();
+                add(cx, "update_signature", "old signature with e = -SK".into(), 0, Box::new(move || {
+                    let mut sig = h2.sig.clone();
+                    if let Ok(sk) = crate::refmodel::octets_to_scalar(&h2.sk) { sig[48..80].copy_from_slice(&(-sk).to_be_bytes()); }
+                    api::update(s, &h2.sk, &sig, &h2.msgs[0], b"new", 0, h2.msgs.len()).is_ok()
+                }));
+            }
             // ... and the message count n (small values and the top of the range; the work is
             // proportional to n, so the values in between are left to the size sweeps)
             if c <= l + 2 || c >= usize::MAX - 1 {
